@@ -103,6 +103,32 @@ pub fn c01(ctx: &mut Ctx) {
     let datas: Vec<Value> = vec![Value::Null, json!([1, 2]), json!({"a": {"b": [1, "é😀"]}, "-9223372036854775808": 1, "s": "日本語"}), json!("é😀a"), json!(i64::MIN), json!({"current": 1, "accumulator": [1]})];
     let mut idx = 0u64;
 
+    if ctx.small {
+        // interpreter-speed lane (Miri): a ~300-call subset aimed at the `unsafe` of the
+        // dependencies reached by hostile strings and numbers (UTF-8 handling, number formatting)
+        let strs: Vec<Value> = ex.iter().filter(|v| v.is_string()).cloned().collect();
+        for _ in 0..ctx.budget(120, 300) {
+            let op = *ctx.rng.pick(&ops);
+            let a = ctx.rng.pick(&ex).clone();
+            let b = ctx.rng.pick(&ex).clone();
+            let c = ctx.rng.pick(&strs).clone();
+            let rule = match ctx.rng.below(4) {
+                0 => json!({ op: [c, a, b] }),
+                1 => json!({ op: [a, b] }),
+                2 => json!({ op: a }),
+                _ => json!({"cat": [{ op: [a, b] }, c, {"substr": [c, a, b]}]}),
+            };
+            let d = ctx.rng.pick(&datas).clone();
+            total(ctx, "c01.apply", "miri-subset", &rule, &d);
+        }
+        for a in ex.iter().take(12) {
+            helper1(ctx, a);
+            let k = ctx.rng.below(ex.len());
+            helper2(ctx, a, &ex[k]);
+        }
+        return;
+    }
+
     // ---- M1(a): operator matrix ------------------------------------------------------
     for op in ops.iter() {
         total(ctx, "c01.apply", "matrix-0", &json!({ *op: [] }), &datas[0]);
